@@ -197,6 +197,9 @@ def run_case(case):
             o = build(dict(case, members=list(other_members)))
             rec.expect_true("eq-members", lambda o=o: not (x == o) and not (o == x) and (x != o) and (o != x),
                             f"CorrFunc with members {members} compares equal to one with members {list(other_members)}")
+            # adding them would have to drop or invent pair counts: rejected in both orders
+            rec.expect_raise("add-incompatible", lambda o=o: x + o, f"CorrFunc {members} + CorrFunc {list(other_members)}")
+            rec.expect_raise("add-incompatible", lambda o=o: o + x, f"CorrFunc {list(other_members)} + CorrFunc {members}")
     if has_add or is_data:
         # results of + keep binning and closed side, so that they can be combined again
         pass
